@@ -1,1 +1,535 @@
-From Lou Require Import Model.Back.
+(* C11 — the lemmas used by Properties/C11.v: on a one-to-one table (single-cell character
+   definitions, no character and no cell defined twice, the built-in segment mark included)
+   forward translation is one cell per character, back-translation one character per cell, and
+   the two invert each other; the display maps invert each other too.                          *)
+From Coq Require Import List ZArith Bool Lia ZifyBool.
+From Lou Require Import Gen.GConst Gen.GChain Model.Table Model.Ref Model.Compile Model.Engine Model.Back.
+From Lou Require Import Proofs.EngineLoop Proofs.EngineRef Proofs.CompleteProofs.
+Import ListNotations.
+Local Open Scope Z_scope.
+
+(* ------------------------------------------------------------------ lists *)
+
+Lemma nodup_z_NoDup l : nodup_z l = true -> NoDup l.
+Proof.
+  induction l as [|a l IH]; cbn [nodup_z]; intros H; [constructor|].
+  apply andb_prop in H. destruct H as [H1 H2]. constructor; [|apply IH; exact H2].
+  intros Hin.
+  assert (E : existsb (Z.eqb a) l = true).
+  { apply existsb_exists. exists a. split; [exact Hin|apply Z.eqb_refl]. }
+  rewrite E in H1. discriminate.
+Qed.
+
+Lemma NoDup_app_inv {A} (l1 l2 : list A) :
+  NoDup (l1 ++ l2) -> NoDup l2 /\ forall x, In x l1 -> In x l2 -> False.
+Proof.
+  induction l1 as [|a l1 IH]; cbn [app]; intros H.
+  - split; [exact H|]. intros x [].
+  - inversion H as [|a' l' Hn Hd]; subst. destruct (IH Hd) as [Hn2 Hdis].
+    split; [exact Hn2|]. intros x [->|Hx] Hx2.
+    + apply Hn. apply in_or_app. right. exact Hx2.
+    + exact (Hdis x Hx Hx2).
+Qed.
+
+Lemma flat_unique {A} (f : A -> list Z) (l : list A) : NoDup (flat_map f l) ->
+  forall e1 e2 c, In e1 l -> In e2 l -> In c (f e1) -> In c (f e2) -> e1 = e2.
+Proof.
+  induction l as [|a l IH]; intros Hnd e1 e2 c H1 H2 Hc1 Hc2; [destruct H1|].
+  cbn [flat_map] in Hnd. apply NoDup_app_inv in Hnd. destruct Hnd as [Hnd Hdis].
+  destruct H1 as [<-|H1], H2 as [<-|H2].
+  - reflexivity.
+  - exfalso. apply (Hdis c Hc1). apply in_flat_map. exists e2. split; assumption.
+  - exfalso. apply (Hdis c Hc2). apply in_flat_map. exists e1. split; assumption.
+  - exact (IH Hnd e1 e2 c H1 H2 Hc1 Hc2).
+Qed.
+
+Lemma find_unique {A} (P : A -> bool) (l : list A) (e : A) :
+  (forall e', In e' l -> P e' = true -> e' = e) -> In e l -> P e = true -> find P l = Some e.
+Proof.
+  intros Hu Hin HP. destruct (find P l) as [e'|] eqn:E.
+  - apply find_some in E. destruct E as [Hin' HP']. rewrite (Hu e' Hin' HP'). reflexivity.
+  - pose proof (find_none _ _ E e Hin) as Hn. congruence.
+Qed.
+
+Lemma single_match (l : list Z) (c : Z) :
+  match l with [c'] => c =? c' | _ => false end = true -> l = [c].
+Proof.
+  destruct l as [|c' [|c'' l]]; try discriminate. intros H. apply Z.eqb_eq in H. subst. reflexivity.
+Qed.
+
+(* ------------------------------------------------------------------ the shape of a one-to-one table *)
+
+Definition wf_entry (e : entry) : Prop :=
+  exists c d, e_chars e = [c] /\ e_dots e = [d] /\ is_def_op (e_op e) = true /\
+              e_nofor e = false /\ e_noback e = false.
+
+Lemma cell_def_wf e : is_cell_def e = true -> wf_entry e.
+Proof.
+  intros H. unfold is_cell_def, is_chardef in H.
+  apply andb_prop in H. destruct H as [H Hd].
+  apply andb_prop in H. destruct H as [H Hb].
+  apply andb_prop in H. destruct H as [H Hf].
+  apply andb_prop in H. destruct H as [Ho Hc].
+  destruct (e_chars e) as [|c [|c' cs]] eqn:Ec; try discriminate.
+  destruct (e_dots e) as [|d [|d' ds]] eqn:Ed; try discriminate.
+  exists c, d. split; [exact Ec|]. split; [exact Ed|]. split; [exact Ho|].
+  split; [destruct (e_nofor e); [discriminate|reflexivity]|destruct (e_noback e); [discriminate|reflexivity]].
+Qed.
+
+Lemma builtin_wf : wf_entry builtin.
+Proof. exists LOU_ENDSEGMENT, 65535. repeat split; reflexivity. Qed.
+
+Record oto (t : table) : Prop := mkOto {
+  oto_wf : forall e, In e (builtin :: t) -> wf_entry e;
+  oto_uc : forall e1 e2 c, In e1 (builtin :: t) -> In e2 (builtin :: t) ->
+                           In c (e_chars e1) -> In c (e_chars e2) -> e1 = e2;
+  oto_ud : forall e1 e2 d, In e1 (builtin :: t) -> In e2 (builtin :: t) ->
+                           In d (e_dots e1) -> In d (e_dots e2) -> e1 = e2
+}.
+
+Lemma one_to_one_oto t : one_to_one t = true -> oto t.
+Proof.
+  intros H. unfold one_to_one in H.
+  apply andb_prop in H. destruct H as [H Hd]. apply andb_prop in H. destruct H as [Hdef Hc].
+  constructor.
+  - intros e [<-|Hin]; [exact builtin_wf|]. apply cell_def_wf.
+    unfold defs_only in Hdef. rewrite forallb_forall in Hdef. apply Hdef. exact Hin.
+  - apply flat_unique. apply nodup_z_NoDup. exact Hc.
+  - apply flat_unique. apply nodup_z_NoDup. exact Hd.
+Qed.
+
+Lemma defs_only_numsign t : defs_only t = true -> numsign t = None.
+Proof.
+  intros H. unfold numsign. unfold defs_only in H. rewrite forallb_forall in H.
+  assert (G : forall l acc, (forall e, In e l -> is_cell_def e = true) ->
+            fold_left (fun acc e => if e_op e =? CTO_NumberSign then Some (e_dots e) else acc) l acc = acc).
+  { induction l as [|a l IH]; intros acc Hl; cbn [fold_left]; [reflexivity|].
+    rewrite IH; [|intros e He; apply Hl; right; exact He].
+    pose proof (cell_def_wf a (Hl a (or_introl eq_refl))) as (c & d & _ & _ & Ho & _).
+    unfold is_def_op in Ho. unfold CTO_NumberSign.
+    destruct (e_op a =? 23) eqn:E; [lia|reflexivity]. }
+  apply G. exact H.
+Qed.
+
+(* ------------------------------------------------------------------ lookups on a one-to-one table *)
+
+Section Lookups.
+  Variable t : table.
+  Hypothesis Ht : oto t.
+
+  Lemma wf_single e c : In e (builtin :: t) -> In c (e_chars e) -> e_chars e = [c].
+  Proof.
+    intros Hin Hc. destruct (oto_wf t Ht e Hin) as (c0 & d0 & Ec & _). rewrite Ec in *.
+    destruct Hc as [->|[]]. reflexivity.
+  Qed.
+
+  Lemma wf_single_d e d : In e (builtin :: t) -> In d (e_dots e) -> e_dots e = [d].
+  Proof.
+    intros Hin Hd. destruct (oto_wf t Ht e Hin) as (c0 & d0 & _ & Ed & _). rewrite Ed in *.
+    destruct Hd as [->|[]]. reflexivity.
+  Qed.
+
+  Lemma in_chars c : In c (table_chars t) -> exists e, In e (builtin :: t) /\ e_chars e = [c].
+  Proof.
+    unfold table_chars. intros H. apply in_flat_map in H. destruct H as (e & Hin & Hc).
+    exists e. split; [exact Hin|apply wf_single; assumption].
+  Qed.
+
+  Lemma in_cells d : In d (table_cells t) -> exists e, In e (builtin :: t) /\ e_dots e = [d].
+  Proof.
+    unfold table_cells. intros H. apply in_flat_map in H. destruct H as (e & Hin & Hd).
+    exists e. split; [exact Hin|apply wf_single_d; assumption].
+  Qed.
+
+  Lemma chars_in e c : In e (builtin :: t) -> e_chars e = [c] -> In c (table_chars t).
+  Proof.
+    intros Hin Hc. unfold table_chars. apply in_flat_map. exists e. split; [exact Hin|].
+    rewrite Hc. left. reflexivity.
+  Qed.
+
+  Lemma cells_in e d : In e (builtin :: t) -> e_dots e = [d] -> In d (table_cells t).
+  Proof.
+    intros Hin Hd. unfold table_cells. apply in_flat_map. exists e. split; [exact Hin|].
+    rewrite Hd. left. reflexivity.
+  Qed.
+
+  Lemma same_char e1 e2 c : In e1 (builtin :: t) -> In e2 (builtin :: t) ->
+    e_chars e1 = [c] -> e_chars e2 = [c] -> e1 = e2.
+  Proof.
+    intros H1 H2 E1 E2. apply (oto_uc t Ht e1 e2 c H1 H2); [rewrite E1|rewrite E2]; left; reflexivity.
+  Qed.
+
+  Lemma same_cell e1 e2 d : In e1 (builtin :: t) -> In e2 (builtin :: t) ->
+    e_dots e1 = [d] -> e_dots e2 = [d] -> e1 = e2.
+  Proof.
+    intros H1 H2 E1 E2. apply (oto_ud t Ht e1 e2 d H1 H2); [rewrite E1|rewrite E2]; left; reflexivity.
+  Qed.
+
+  Lemma chardef_in e : In e (builtin :: t) -> is_chardef e = true.
+  Proof.
+    intros Hin. destruct (oto_wf t Ht e Hin) as (c & d & Ec & _ & Eo & _).
+    unfold is_chardef. rewrite Ec, Eo. reflexivity.
+  Qed.
+
+  Lemma find_defines e c : In e (builtin :: t) -> e_chars e = [c] ->
+    find (defines c) (builtin :: t) = Some e.
+  Proof.
+    intros Hin Ec. apply find_unique; [|exact Hin|].
+    - intros e' Hin' HP. unfold defines in HP. apply andb_prop in HP. destruct HP as [_ HP].
+      apply single_match in HP. exact (same_char e' e c Hin' Hin HP Ec).
+    - unfold defines. rewrite (chardef_in e Hin), Ec, Z.eqb_refl. reflexivity.
+  Qed.
+
+  Lemma find_defines_cell e d : In e (builtin :: t) -> e_dots e = [d] ->
+    find (defines_cell d) (builtin :: t) = Some e.
+  Proof.
+    intros Hin Ed. apply find_unique; [|exact Hin|].
+    - intros e' Hin' HP. unfold defines_cell in HP. apply andb_prop in HP. destruct HP as [_ HP].
+      apply single_match in HP. exact (same_cell e' e d Hin' Hin HP Ed).
+    - destruct (oto_wf t Ht e Hin) as (c0 & d0 & _ & _ & _ & _ & Eb).
+      unfold defines_cell. rewrite (chardef_in e Hin), Ed, Eb, Z.eqb_refl. reflexivity.
+  Qed.
+
+  Lemma disp_c2d_entry e c d : In e (builtin :: t) -> e_chars e = [c] -> e_dots e = [d] ->
+    disp_c2d t c = Some d.
+  Proof.
+    intros Hin Ec Ed. unfold disp_c2d. rewrite (find_unique _ _ e); [rewrite Ed; reflexivity| |exact Hin|].
+    - intros e' Hin' HP. apply andb_prop in HP. destruct HP as [_ HP].
+      apply single_match in HP. exact (same_char e' e c Hin' Hin HP Ec).
+    - rewrite (chardef_in e Hin), Ec, Ed, Z.eqb_refl. reflexivity.
+  Qed.
+
+  Lemma disp_d2c_entry e c d : In e (builtin :: t) -> e_chars e = [c] -> e_dots e = [d] ->
+    disp_d2c t d = Some c.
+  Proof.
+    intros Hin Ec Ed. unfold disp_d2c. rewrite (find_unique _ _ e); [rewrite Ec; reflexivity| |exact Hin|].
+    - intros e' Hin' HP. apply andb_prop in HP. destruct HP as [_ HP].
+      apply single_match in HP. exact (same_cell e' e d Hin' Hin HP Ed).
+    - rewrite (chardef_in e Hin), Ed, Z.eqb_refl. reflexivity.
+  Qed.
+
+  Lemma cell_char_entry e c d : In e (builtin :: t) -> e_chars e = [c] -> e_dots e = [d] ->
+    cell_char t d = Some c.
+  Proof.
+    intros Hin Ec Ed. unfold cell_char. rewrite (find_defines_cell e d Hin Ed), Ec. reflexivity.
+  Qed.
+End Lookups.
+
+(* the cell of a character, the character of a cell *)
+Definition fc (t : table) (c : Z) : Z := match disp_c2d t c with Some d => d | None => 0 end.
+Definition bc (t : table) (d : Z) : Z := match disp_d2c t d with Some c => c | None => 0 end.
+
+Lemma fc_entry t e c d : oto t -> In e (builtin :: t) -> e_chars e = [c] -> e_dots e = [d] -> fc t c = d.
+Proof. intros Ht Hin Ec Ed. unfold fc. rewrite (disp_c2d_entry t Ht e c d Hin Ec Ed). reflexivity. Qed.
+
+Lemma bc_entry t e c d : oto t -> In e (builtin :: t) -> e_chars e = [c] -> e_dots e = [d] -> bc t d = c.
+Proof. intros Ht Hin Ec Ed. unfold bc. rewrite (disp_d2c_entry t Ht e c d Hin Ec Ed). reflexivity. Qed.
+
+Lemma char_entry t c : oto t -> In c (table_chars t) ->
+  exists e, In e (builtin :: t) /\ e_chars e = [c] /\ e_dots e = [fc t c].
+Proof.
+  intros Ht Hc. destruct (in_chars t Ht c Hc) as (e & Hin & Ec).
+  destruct (oto_wf t Ht e Hin) as (c0 & d0 & _ & Ed & _).
+  exists e. split; [exact Hin|]. split; [exact Ec|]. rewrite (fc_entry t e c d0 Ht Hin Ec Ed). exact Ed.
+Qed.
+
+Lemma cell_entry t d : oto t -> In d (table_cells t) ->
+  exists e, In e (builtin :: t) /\ e_chars e = [bc t d] /\ e_dots e = [d].
+Proof.
+  intros Ht Hd. destruct (in_cells t Ht d Hd) as (e & Hin & Ed).
+  destruct (oto_wf t Ht e Hin) as (c0 & d0 & Ec & _).
+  exists e. split; [exact Hin|]. split; [|exact Ed]. rewrite (bc_entry t e c0 d Ht Hin Ec Ed). exact Ec.
+Qed.
+
+Lemma bc_fc t c : oto t -> In c (table_chars t) -> bc t (fc t c) = c /\ In (fc t c) (table_cells t).
+Proof.
+  intros Ht Hc. destruct (char_entry t c Ht Hc) as (e & Hin & Ec & Ed).
+  split; [exact (bc_entry t e c _ Ht Hin Ec Ed)|exact (cells_in t e _ Hin Ed)].
+Qed.
+
+Lemma fc_bc t d : oto t -> In d (table_cells t) -> fc t (bc t d) = d /\ In (bc t d) (table_chars t).
+Proof.
+  intros Ht Hd. destruct (cell_entry t d Ht Hd) as (e & Hin & Ec & Ed).
+  split; [exact (fc_entry t e _ d Ht Hin Ec Ed)|exact (chars_in t e _ Hin Ec)].
+Qed.
+
+(* ------------------------------------------------------------------ the display maps *)
+
+Lemma display_char_l : forall t c, one_to_one t = true -> In c (table_chars t) ->
+  exists d, disp_c2d t c = Some d /\ disp_d2c t d = Some c.
+Proof.
+  intros t c H Hc. apply one_to_one_oto in H.
+  destruct (char_entry t c H Hc) as (e & Hin & Ec & Ed). exists (fc t c).
+  split; [exact (disp_c2d_entry t H e c _ Hin Ec Ed)|exact (disp_d2c_entry t H e c _ Hin Ec Ed)].
+Qed.
+
+Lemma display_cell_l : forall t d, one_to_one t = true -> In d (table_cells t) ->
+  exists c, disp_d2c t d = Some c /\ disp_c2d t c = Some d.
+Proof.
+  intros t d H Hd. apply one_to_one_oto in H.
+  destruct (cell_entry t d H Hd) as (e & Hin & Ec & Ed). exists (bc t d).
+  split; [exact (disp_d2c_entry t H e _ d Hin Ec Ed)|exact (disp_c2d_entry t H e _ d Hin Ec Ed)].
+Qed.
+
+(* ------------------------------------------------------------------ forward translation *)
+
+Lemma number_from_has l : forall k e, In e l -> exists idx, In (idx, e) (number_from k l).
+Proof.
+  induction l as [|a l IH]; intros k e Hin; [destruct Hin|]. cbn [number_from].
+  destruct Hin as [->|Hin].
+  - exists k. left. reflexivity.
+  - destruct (IH (k + 1) e Hin) as (idx & H). exists idx. right. exact H.
+Qed.
+
+Lemma nth_z_app pre c suf : nth_z (pre ++ c :: suf) (len pre) = c.
+Proof.
+  unfold nth_z, len. destruct (_ <? 0) eqn:E; [lia|]. rewrite Nat2Z.id.
+  rewrite app_nth2; [|lia]. rewrite Nat.sub_diag. reflexivity.
+Qed.
+
+Lemma len_app a b : len (a ++ b) = len a + len b.
+Proof. unfold len. rewrite app_length. lia. Qed.
+
+Lemma word_mark_pm t inp s : ts_pm (word_mark t inp s) = ts_pm s.
+Proof. unfold word_mark. destruct (_ && _); reflexivity. Qed.
+
+Lemma word_mark_trace t inp s : ts_trace (word_mark t inp s) = ts_trace s.
+Proof. unfold word_mark. destruct (_ && _); reflexivity. Qed.
+
+Lemma finish_end t inp s : ts_pos s = n inp -> length (ts_pm s) = length (ts_out s) ->
+  finish t inp s = TOk (n inp) (rev (ts_out s)) (rev (ts_pm s)) (rev (ts_trace s)).
+Proof.
+  intros Hp Hpm. unfold finish.
+  assert (E : ts_pos s <? n inp = false) by lia.
+  rewrite E, andb_false_r. cbn [andb]. cbv iota. rewrite Hp, skip_spaces_end.
+  rewrite <- (rev_length (ts_out s)), firstn_all.
+  rewrite rev_length, <- Hpm, <- (rev_length (ts_pm s)), firstn_all. reflexivity.
+Qed.
+
+Section Forward.
+  Variable t : table.
+  Variable mode : Z.
+  Hypothesis Ht : oto t.
+  Hypothesis Hns : numsign t = None.
+
+  Lemma sel_oto inp pos e c : 0 <= pos < len inp -> nth_z inp pos = c ->
+    In e (builtin :: t) -> e_chars e = [c] ->
+    exists idx, select_ref t mode inp pos = Some (idx, e).
+  Proof.
+    intros Hp Hn Hin Ec.
+    destruct (select_ref t mode inp pos) as [[idx' e']|] eqn:Es.
+    - exists idx'. apply select_ref_qualifies_l in Es; [|exact Hp].
+      destruct Es as (Hin' & _ & _ & Hshape). cbn [snd] in *. apply numbered_in in Hin'.
+      destruct Hshape as [(Hm & _)|Hs].
+      + destruct (oto_wf t Ht e' Hin') as (c' & d' & Ec' & _).
+        unfold is_multi in Hm. rewrite Ec' in Hm. discriminate.
+      + rewrite Hn in Hs. rewrite (same_char t Ht e' e c Hin' Hin Hs Ec). reflexivity.
+    - exfalso. rewrite select_ref_none_iff_l in Es; [|exact Hp].
+      destruct (number_from_has (builtin :: t) 0 e Hin) as (idx & Hnum).
+      apply (Es (idx, e)). unfold qualifies. cbn [snd]. split; [exact Hnum|].
+      destruct (oto_wf t Ht e Hin) as (c0 & d0 & _ & _ & Eo & Ef & _).
+      split. { unfold is_fwd_rule. rewrite Ef, (chardef_in t Ht e Hin). reflexivity. }
+      split. { unfold cand_ok, op_cond. rewrite Eo. reflexivity. }
+      right. rewrite Ec, Hn. reflexivity.
+  Qed.
+
+  Lemma step_oto inp cap s e c d :
+    0 <= ts_pos s < n inp -> nth_z inp (ts_pos s) = c ->
+    In e (builtin :: t) -> e_chars e = [c] -> e_dots e = [d] -> len (ts_out s) + 1 <= cap ->
+    exists idx lwi lwo, step t (select_ref t mode) inp cap s =
+      Next (mkTS (ts_pos s + 1) (d :: ts_out s) (ts_pos s :: ts_pm s) lwi lwo (idx :: ts_trace s)).
+  Proof.
+    intros Hp Hn Hin Ec Ed Hcap. rewrite step_unfold.
+    destruct (sel_oto inp (ts_pos s) e c Hp Hn Hin Ec) as (idx & Es). rewrite Es.
+    unfold numsign_emit. rewrite Hns. unfold apply_rule. rewrite Ed, Ec.
+    unfold emit. cbn [with_trace ts_pos ts_out ts_pm ts_lw_in ts_lw_out ts_trace].
+    rewrite word_mark_pos, word_mark_out, word_mark_pm, word_mark_trace.
+    assert (E : (len (ts_out s) + len [d] >? cap) || (ts_pos s + len [c] >? n inp) = false).
+    { unfold len in *. cbn [length]. lia. }
+    rewrite E. exists idx. eexists. eexists. reflexivity.
+  Qed.
+
+  Lemma loop_oto inp cap : len inp <= cap ->
+    forall suf pre s fuel, inp = pre ++ suf -> Forall (fun c => In c (table_chars t)) suf ->
+    ts_pos s = len pre -> len (ts_out s) = len pre -> length (ts_pm s) = length (ts_out s) ->
+    (length suf < fuel)%nat ->
+    exists tr, loop t (select_ref t mode) inp cap fuel s =
+      TOk (len inp) (rev (ts_out s) ++ map (fc t) suf)
+          (rev (ts_pm s) ++ map Z.of_nat (seq (length pre) (length suf))) tr.
+  Proof.
+    intros Hcap. induction suf as [|c suf IH]; intros pre s fuel Hinp Hall Hpos Hout Hpm Hfuel.
+    - destruct fuel as [|f]; [cbn [length] in Hfuel; lia|]. rewrite loop_unfold.
+      rewrite app_nil_r in Hinp. subst pre.
+      assert (Eg : ts_pos s >=? n inp = true) by (unfold n; lia).
+      rewrite Eg. rewrite finish_end.
+      + rewrite word_mark_out, word_mark_pm. cbn [map length seq]. rewrite !app_nil_r.
+        eexists. reflexivity.
+      + rewrite word_mark_pos. exact Hpos.
+      + rewrite word_mark_out, word_mark_pm. exact Hpm.
+    - destruct fuel as [|f]; [lia|]. rewrite loop_unfold.
+      assert (Hlen : len inp = len pre + 1 + len suf).
+      { rewrite Hinp, len_app. unfold len. cbn [length]. lia. }
+      assert (Hsuf : 0 <= len suf) by (unfold len; lia).
+      assert (Hpre : 0 <= len pre) by (unfold len; lia).
+      assert (Eg : ts_pos s >=? n inp = false) by (unfold n; lia).
+      rewrite Eg.
+      inversion Hall as [|c' suf' Hc Hall']; subst c' suf'.
+      destruct (char_entry t c Ht Hc) as (e & Hin & Ec & Ed).
+      destruct (step_oto inp cap s e c (fc t c)) as (idx & lwi & lwo & Es); try assumption.
+      { unfold n. lia. }
+      { rewrite Hpos, Hinp. apply nth_z_app. }
+      { lia. }
+      rewrite Es.
+      destruct (IH (pre ++ [c]) (mkTS (ts_pos s + 1) (fc t c :: ts_out s) (ts_pos s :: ts_pm s) lwi lwo
+                                      (idx :: ts_trace s)) f) as (tr & Hl).
+      + rewrite <- app_assoc. exact Hinp.
+      + exact Hall'.
+      + cbn [ts_pos]. rewrite len_app. unfold len at 2. cbn [length]. lia.
+      + cbn [ts_out]. rewrite len_app. unfold len in *. cbn [length]. lia.
+      + cbn [ts_pm ts_out length]. rewrite Hpm. reflexivity.
+      + cbn [length] in Hfuel. lia.
+      + exists tr. rewrite Hl. cbn [ts_out ts_pm rev map length seq].
+        rewrite <- !app_assoc. cbn [app]. rewrite app_length. cbn [length]. rewrite Nat.add_1_r.
+        rewrite Hpos. reflexivity.
+  Qed.
+
+  Lemma run_oto inp cap : len inp <= cap -> Forall (fun c => In c (table_chars t)) inp ->
+    exists tr, translate_ref t mode inp cap =
+      TOk (len inp) (map (fc t) inp) (map Z.of_nat (seq 0 (length inp))) tr.
+  Proof.
+    intros Hcap Hall. unfold translate_ref, run.
+    destruct (loop_oto inp cap Hcap inp [] (mkTS 0 [] [] 0 0 []) (S (length inp))) as (tr & H);
+      try reflexivity; try assumption; [lia|].
+    exists tr. exact H.
+  Qed.
+End Forward.
+
+Lemma forward_oto t mode s cap : one_to_one t = true ->
+  Forall (fun c => In c (table_chars t)) s -> len s <= cap ->
+  exists tr, translate_ref t mode s cap =
+    TOk (len s) (map (fc t) s) (map Z.of_nat (seq 0 (length s))) tr.
+Proof.
+  intros H Hall Hcap. apply run_oto; [exact (one_to_one_oto t H)| |exact Hcap|exact Hall].
+  apply defs_only_numsign. unfold one_to_one in H.
+  apply andb_prop in H. destruct H as [H _]. apply andb_prop in H. apply H.
+Qed.
+
+Lemma forward_defs_l : forall t mode s cap,
+  one_to_one t = true -> Forall (fun c => In c (table_chars t)) s -> len s <= cap ->
+  exists cells tr, translate_ref t mode s cap = TOk (len s) cells (map Z.of_nat (seq 0 (length s))) tr /\
+                   length cells = length s /\ Forall (fun d => In d (table_cells t)) cells.
+Proof.
+  intros t mode s cap H Hall Hcap. destruct (forward_oto t mode s cap H Hall Hcap) as (tr & E).
+  exists (map (fc t) s), tr. split; [exact E|]. split; [apply map_length|].
+  apply one_to_one_oto in H. rewrite Forall_forall in *. intros d Hd.
+  apply in_map_iff in Hd. destruct Hd as (c & <- & Hc). apply (bc_fc t c H). apply Hall. exact Hc.
+Qed.
+
+(* ------------------------------------------------------------------ back-translation *)
+
+Lemma bskip_end t inp fuel : bskip t inp fuel (bn inp) = bn inp.
+Proof. destruct fuel as [|f]; cbn [bskip]; [reflexivity|]. rewrite Z.ltb_irrefl. reflexivity. Qed.
+
+Lemma bfinish_end t inp s : bs_pos s = bn inp ->
+  bfinish t inp s = BOk (bn inp) (rev (bs_out s)) (rev (bs_pm s)).
+Proof.
+  intros Hp. unfold bfinish.
+  assert (E : bs_pos s <? bn inp = false) by lia.
+  rewrite E, andb_false_r. cbn [andb]. cbv iota. rewrite Hp, bskip_end.
+  rewrite <- (rev_length (bs_out s)), firstn_all. reflexivity.
+Qed.
+
+Lemma bloop_oto t inp cap : oto t -> len inp <= cap ->
+  forall suf pre s fuel, inp = pre ++ suf -> Forall (fun d => In d (table_cells t)) suf ->
+  bs_pos s = len pre -> len (bs_out s) = len pre -> (length suf < fuel)%nat ->
+  bloop t inp cap fuel s =
+    BOk (len inp) (rev (bs_out s) ++ map (bc t) suf)
+        (rev (bs_pm s) ++ map Z.of_nat (seq (length pre) (length suf))).
+Proof.
+  intros Ht Hcap. induction suf as [|d suf IH]; intros pre s fuel Hinp Hall Hpos Hout Hfuel.
+  - destruct fuel as [|f]; [cbn [length] in Hfuel; lia|]. cbn [bloop].
+    rewrite app_nil_r in Hinp. subst pre.
+    assert (Eg : bs_pos s >=? bn inp = true) by (unfold bn; lia).
+    rewrite Eg, bfinish_end; [|exact Hpos]. cbn [map length seq]. rewrite !app_nil_r. reflexivity.
+  - destruct fuel as [|f]; [lia|]. cbn [bloop]. cbv zeta.
+    assert (Hlen : len inp = len pre + 1 + len suf).
+    { rewrite Hinp, len_app. unfold len. cbn [length]. lia. }
+    assert (Hsuf : 0 <= len suf) by (unfold len; lia).
+    assert (Hpre : 0 <= len pre) by (unfold len; lia).
+    assert (Eg : bs_pos s >=? bn inp = false) by (unfold bn; lia).
+    rewrite Eg.
+    inversion Hall as [|d' suf' Hd Hall']; subst d' suf'.
+    assert (Hn : nth_z inp (bs_pos s) = d) by (rewrite Hpos, Hinp; apply nth_z_app).
+    rewrite Hn.
+    destruct (cell_entry t d Ht Hd) as (e & Hin & Ec & Ed).
+    rewrite (cell_char_entry t Ht e _ d Hin Ec Ed).
+    assert (Ec' : len (bs_out s) + 1 >? cap = false) by lia.
+    rewrite Ec'.
+    rewrite (IH (pre ++ [d])).
+    + cbn [bs_out bs_pm rev map length seq].
+      rewrite <- !app_assoc. cbn [app]. rewrite app_length. cbn [length]. rewrite Nat.add_1_r.
+      rewrite Hout. reflexivity.
+    + rewrite <- app_assoc. exact Hinp.
+    + exact Hall'.
+    + cbn [bs_pos]. rewrite len_app. unfold len at 2. cbn [length]. lia.
+    + cbn [bs_out]. rewrite len_app. unfold len in *. cbn [length]. lia.
+    + cbn [length] in Hfuel. lia.
+Qed.
+
+Lemma back_oto t cells cap : one_to_one t = true ->
+  Forall (fun d => In d (table_cells t)) cells -> len cells <= cap ->
+  back_run t cells cap = BOk (len cells) (map (bc t) cells) (map Z.of_nat (seq 0 (length cells))).
+Proof.
+  intros H Hall Hcap. unfold back_run.
+  rewrite (bloop_oto t cells cap (one_to_one_oto t H) Hcap cells []); try reflexivity; try assumption.
+  lia.
+Qed.
+
+(* ------------------------------------------------------------------ the round trips *)
+
+Lemma map_bc_fc t s : oto t -> Forall (fun c => In c (table_chars t)) s ->
+  map (bc t) (map (fc t) s) = s /\ Forall (fun d => In d (table_cells t)) (map (fc t) s).
+Proof.
+  intros Ht. induction 1 as [|c s Hc Hs IH]; cbn [map]; [split; [reflexivity|constructor]|].
+  destruct IH as [IH1 IH2]. destruct (bc_fc t c Ht Hc) as [E Hin].
+  rewrite E, IH1. split; [reflexivity|constructor; assumption].
+Qed.
+
+Lemma map_fc_bc t cells : oto t -> Forall (fun d => In d (table_cells t)) cells ->
+  map (fc t) (map (bc t) cells) = cells /\ Forall (fun c => In c (table_chars t)) (map (bc t) cells).
+Proof.
+  intros Ht. induction 1 as [|d s Hd Hs IH]; cbn [map]; [split; [reflexivity|constructor]|].
+  destruct IH as [IH1 IH2]. destruct (fc_bc t d Ht Hd) as [E Hin].
+  rewrite E, IH1. split; [reflexivity|constructor; assumption].
+Qed.
+
+Lemma text_round_trip_l : forall t mode s cap cells pm tr cap',
+  one_to_one t = true -> Forall (fun c => In c (table_chars t)) s ->
+  translate_ref t mode s cap = TOk (len s) cells pm tr -> len s <= cap -> len cells <= cap' ->
+  back_run t cells cap' = BOk (len cells) s (map Z.of_nat (seq 0 (length cells))).
+Proof.
+  intros t mode s cap cells pm tr cap' H Hall Htr Hcap Hcap'.
+  destruct (forward_oto t mode s cap H Hall Hcap) as (tr' & E).
+  rewrite E in Htr. injection Htr as Hcells _ _. subst cells.
+  destruct (map_bc_fc t s (one_to_one_oto t H) Hall) as [Eb Hin].
+  rewrite (back_oto t _ cap' H Hin Hcap'), Eb. reflexivity.
+Qed.
+
+Lemma braille_round_trip_l : forall t mode cells cap,
+  one_to_one t = true -> Forall (fun d => In d (table_cells t)) cells -> len cells <= cap ->
+  exists s, back_run t cells cap = BOk (len cells) s (map Z.of_nat (seq 0 (length cells))) /\
+            exists tr, translate_ref t mode s cap = TOk (len s) cells (map Z.of_nat (seq 0 (length s))) tr.
+Proof.
+  intros t mode cells cap H Hall Hcap. exists (map (bc t) cells).
+  split; [exact (back_oto t cells cap H Hall Hcap)|].
+  destruct (map_fc_bc t cells (one_to_one_oto t H) Hall) as [Ef Hin].
+  destruct (forward_oto t mode (map (bc t) cells) cap H Hin) as (tr & E).
+  { unfold len in *. rewrite map_length. exact Hcap. }
+  exists tr. rewrite E, Ef. reflexivity.
+Qed.
+
+Print Assumptions forward_defs_l.
+Print Assumptions text_round_trip_l.
+Print Assumptions braille_round_trip_l.
+Print Assumptions display_char_l.
+Print Assumptions display_cell_l.
